@@ -95,6 +95,18 @@ VwAOpt = typing.TypeAliasType("VwAOpt", typing.Optional[int])
 VwAStr = typing.TypeAliasType("VwAStr", "VwDC")
 def vw_func(a: int, b: str = "x") -> int:
     return a
+# user classes whose names coincide with typing's special forms (an AST node, a token kind, ...)
+@dataclasses.dataclass
+class Literal:
+    value: int = 0
+class Final(enum.Enum):
+    A = 1
+class Union:
+    pass
+class Optional:
+    pass
+class ClassVar:
+    pass
 class VwRecord:
     """dict-backed record: unknown attributes are looked up in the data (KeyError when absent)"""
     def __init__(self, **data):
@@ -140,6 +152,7 @@ CLASSY = [
     "VwGen[int]", "VwUnhashable", "VwAbstract",
     "VwNInt", "VwNStr", "VwNDate", "VwNList", "VwNDict", "VwNNInt", "VwNDC", "VwNPath", "VwNBytes", "VwNFloat",
     "VwAInt", "VwAList", "VwADict", "VwADate",
+    "Literal", "Final", "Union", "Optional", "ClassVar",
 ]
 SPECIAL = [
     "typing.Optional[int]", "int | None", "typing.Union[int, None]", "typing.Union[None, int]", "None | int",
